@@ -186,6 +186,7 @@ func TestHistory(t *testing.T) {
 				hash []byte
 				blk  *integrityblock.IntegrityBlock
 				ibs  *integrityblock.IntegrityBlockSigner
+				ibs2 *integrityblock.IntegrityBlockSigner
 				good int
 			}
 			var targets []*target
@@ -193,8 +194,27 @@ func TestHistory(t *testing.T) {
 				tg := &target{data: c.Bytes("file.data", 8, 300)}
 				sum := sha512.Sum512(tg.data)
 				tg.hash = sum[:]
-				tg.blk = &integrityblock.IntegrityBlock{Magic: integrityblock.IntegrityBlockMagic, Version: integrityblock.VersionB1}
+				if c.Bool("block.obtained") {
+					// the block as the command obtains it: from an unsigned bundle file
+					binary.BigEndian.PutUint64(tg.data[len(tg.data)-8:], uint64(len(tg.data)))
+					sum = sha512.Sum512(tg.data)
+					tg.hash = sum[:]
+					if f, err := os.CreateTemp(".", "hist-*"); err == nil {
+						f.Write(tg.data)
+						blk, _, oerr := integrityblock.ObtainIntegrityBlock(f)
+						f.Close()
+						os.Remove(f.Name())
+						if oerr == nil {
+							tg.blk = blk
+						}
+					}
+				}
+				if tg.blk == nil {
+					tg.blk = &integrityblock.IntegrityBlock{Magic: integrityblock.IntegrityBlockMagic, Version: integrityblock.VersionB1}
+				}
 				tg.ibs = &integrityblock.IntegrityBlockSigner{WebBundleHash: tg.hash, IntegrityBlock: tg.blk}
+				// a second signer object working on the same block (e.g. another team's key)
+				tg.ibs2 = &integrityblock.IntegrityBlockSigner{WebBundleHash: tg.hash, IntegrityBlock: tg.blk}
 				targets = append(targets, tg)
 			}
 			k := c.Int("signings", 1, 4) * nb
@@ -206,6 +226,9 @@ func TestHistory(t *testing.T) {
 			for i := 0; i < k; i++ {
 				tg := targets[c.Pick("target", nb)]
 				data, hash, blk, ibs := tg.data, tg.hash, tg.blk, tg.ibs
+				if c.Bool("secondSignerObject") {
+					ibs = tg.ibs2
+				}
 				good = tg.good
 				h := newHSM(c, fmt.Sprintf("hsm%d", i), allowFaults)
 				ibs.SigningStrategy = h
